@@ -3,6 +3,7 @@ package props
 import (
 	"bytes"
 	"encoding/binary"
+	"encoding/hex"
 	"fmt"
 	"hash/fnv"
 	"os"
@@ -26,6 +27,7 @@ type C18Node struct {
 	Kids   []C18Node `json:"c,omitempty"`
 	Zero   bool      `json:"z,omitempty"`    // file of zero bytes only (every chunk is the same block)
 	Like   string    `json:"like,omitempty"` // file content generated for this name instead of Name (equal files under different names)
+	Hex    string    `json:"hex,omitempty"`  // file content given literally (bytes that equal the encoding of another node of the tree)
 }
 
 type C18Case struct {
@@ -57,6 +59,13 @@ const c18Timeout = 10 * time.Minute
 // c18Content is the content of the file called name: a pattern that differs between any two
 // names and sizes (so swapped contents are visible) and between the chunks of one file.
 func c18Content(n C18Node) []byte {
+	if n.Hex != "" {
+		b, err := hex.DecodeString(n.Hex)
+		if err != nil {
+			panic(err)
+		}
+		return b
+	}
 	b := make([]byte, n.Size)
 	if n.Zero {
 		return b
@@ -659,6 +668,14 @@ func genC18(tier string, emit func(any)) {
 		{Name: "q", Kind: "f", Size: c18Chunk + 1, Like: "p"},
 		{Name: "r", Kind: "d", Kids: []C18Node{{Name: "p", Kind: "f", Size: c18Chunk + 1, Like: "p"}, {Name: "s", Kind: "f", Size: 1}, {Name: "t", Kind: "f", Size: 1, Like: "s"}}},
 	}, false)
+	// a file whose bytes are the dag-pb encoding of another node of the same tree (an empty directory; an empty
+	// file node): the raw leaf and that node share a multihash under different codecs, and car create stores the
+	// bytes once; in both name orders (which of the two is written first)
+	for _, names := range [][2]string{{"a_dir", "b_file"}, {"z_dir", "b_file"}} {
+		kids := []C18Node{{Name: names[0], Kind: "d"}, {Name: names[1], Kind: "f", Size: 4, Hex: "0a020801"}}
+		modes(kids, false)
+		multi(kids)
+	}
 	// nesting chain to depth 6
 	chain := []C18Node{{Name: "leaf", Kind: "f", Size: 3}}
 	for d := 0; d < 6; d++ {
@@ -791,7 +808,7 @@ func init() {
 		Decode: kit.DecodeAs[C18Case],
 		Rule: "every directory tree with up to N entries over names {a, b, ü, 'a b'} x kinds {empty file, 1-byte file, directory, symlink to a sibling, dangling symlink, symlink with a non-canonical target (./b/../a/)} " +
 			"x --version {1,2} x --no-wrap x extraction from file / stdin pipe x source {directory, single entry, several entries as separate sources}; " +
-			"plus, each under all 8 modes (and as single source where it is one entry): files of 91/92/16347/16348 bytes (section length varint widths), chunk-1/chunk/chunk+1/2*chunk/3*chunk+5 bytes, an all-zero 3-chunk file, equal files under different names, a nesting chain of depth 6, " +
+			"plus, each under all 8 modes (and as single source where it is one entry): files of 91/92/16347/16348 bytes (section length varint widths), chunk-1/chunk/chunk+1/2*chunk/3*chunk+5 bytes, an all-zero 3-chunk file, equal files under different names, a file whose bytes are the dag-pb encoding of an empty directory of the same tree (same multihash under two codecs; both name orders), a nesting chain of depth 6, " +
 			"odd names {.h, 255-byte ASCII, 255-byte multibyte, a\\b, -x, n<newline>l} at depth 1-3 as file/directory/symlink (also as single and separate sources) and all side by side; " +
 			"reduced matrix over 5 representative trees (empty source, single empty directory, single directory, mixed tree, chain): stdin redirected from a regular file, extraction into the cwd without an output argument x {file, pipe, redirected file}, --version omitted, source spelled src/ ./src absolute (also for separate sources); " +
 			"HAMT-sharded directories (witnessed by a shard node in the archive): quick 1000 siblings with 230-byte names under 4 mode/nesting combinations; thorough 6000 short-named and 1000 long-named siblings x all 8 modes x {source directory, nested directory}, a 1200-entry unsharded directory, a 176-chunk file (file DAG of depth 3, also as bare --no-wrap file), all 4-wide top levels; " +
